@@ -129,7 +129,8 @@ ExpectedCommon(x) ==
 
 ---------------------------------------------------------------------------
 \* Inbound: a route that has already passed through this speaker is never installed
-InPeers == {"ebgp", "ibgp", "confed"}
+InPeers == {"ebgp", "rs", "ibgp", "confed"}     \* rs: a route-server client - an EXTERNAL peer like ebgp
+ExternalPeer(k) == k \in {"ebgp", "rs"}
 InLoops == {"none", "aspath_local_as", "aspath_confed_id", "cseq_local_as", "cset_local_as",
             "originator_local", "originator_other", "cluster_local", "cluster_other"}
 InCases == [peer : InPeers, confed : BOOLEAN, loop : InLoops]
@@ -139,12 +140,12 @@ InMeaningful(x) == /\ (x.peer = "confed" => x.confed)
                    /\ (x.loop \in {"cseq_local_as", "cset_local_as"} => x.confed /\ x.peer \in {"confed", "ibgp"})
                    \* towards a peer outside the confederation the local AS *is* the confederation id; the member-AS
                    \* number is invisible outside, so the same number in an external path is another AS: left open
-                   /\ ~(x.peer = "ebgp" /\ x.confed /\ x.loop = "aspath_local_as")
+                   /\ ~(ExternalPeer(x.peer) /\ x.confed /\ x.loop = "aspath_local_as")
                    \* the cluster-id is configured per iBGP session in this implementation; which cluster-id is
                    \* "local" on a confederation-eBGP session is not defined by the statement: left open
                    /\ ~(x.peer = "confed" /\ x.loop = "cluster_local")
 Installed(x) == x.loop \notin {"aspath_local_as", "aspath_confed_id", "cseq_local_as", "cset_local_as"}
-                /\ ~(x.peer # "ebgp" /\ x.loop \in {"originator_local", "cluster_local"})
+                /\ ~(~ExternalPeer(x.peer) /\ x.loop \in {"originator_local", "cluster_local"})
 \* (ORIGINATOR_ID / CLUSTER_LIST are iBGP attributes: from an external peer they are dropped, not believed - C05)
 
 Init == c \in {x \in Cases : Meaningful(x)}
